@@ -36,6 +36,8 @@ package absnfs
 // a rejected request reaches no procedure handler (and so no backend call): the dispatch goroutine is
 // spawned only on the path where authentication allowed the request
 //@ callassert NFSProcedureHandler.HandleCall$1 : [dispatch-only-if-allowed] authResult != nil && authResult.Allowed
+// C10: the handlers see the squashed identity, whatever the credential flavor
+//@ callassert NFSProcedureHandler.HandleCall$1 : [effective-ids-applied] {C10} authCtx.EffectiveUID == authResult.UID && authCtx.EffectiveGID == authResult.GID
 // every reply built by HandleCall itself (policy drain, authentication denied) echoes the call's XID
 //@ ensures [own-replies-echo-xid] handlerCalls == old(handlerCalls) && result0 != nil ==> result0.Header.Xid == call.Header.Xid && result0.Header == call.Header
 //@ ensures [denied-or-drain] handlerCalls == old(handlerCalls) && result0 != nil ==> result0.Status == 1 || (result0.Status == 0 && result0.AcceptStatus == 0)
